@@ -11,32 +11,49 @@ Property oracle (independent of the Lean model and of the code's formulas):
   (same ploidy); `__setstate__(__getstate__())` gives an equal genotype.
 * edit distance = naive memoised Levenshtein recursion on suffixes; banded: exact if lev <= maxdiff,
   else > maxdiff.
+
+Machine level (deepening): `Genotype(uint64_t index, uint32_t ploidy)`, the packed 64-bit word (`get_code()`), `==`/`<`
+between objects built by either constructor, `convert_index_to_alleles` with its narrowing of the index, and
+`binomial_coefficient` beyond its exact range are compared with the fixed-width Lean model (`Model/C19Word.lean`).
+Reached through `PhredGenotypeLikelihoods.genotypes()` (the only use of the index constructor from Python) and through
+`harness/gen/c19_shim.py` (the tree's genotype.cpp/binomial.cpp behind ctypes).  Oracle: word layout from genotype.h,
+rank/unrank by a Pascal table, the two constructors must build the same word, `<` = lexicographic order of the
+descending vectors.  Boundary: ploidy 0/15/16/17, allele 16, index = count, count+1, index + k*2^32.
 """
 import functools, itertools, json, os, sys
 
 RULE = ("genotype cases: constructor from an arbitrary-order allele list, index, as_vector, ploidy, save/restore, "
         "restore from (index, ploidy), ==/!=/< on pairs; non-trivial = ploidy >= 2 with >= 2 distinct alleles (or a pair of such). "
+        "machine-level cases: Genotype(index, ploidy) / the packed word of an allele list / genotypes() of one (ploidy, alleles) / a "
+        "mixed-origin comparison; non-trivial as above. "
         "edit-distance cases: one (s, t) pair evaluated unbanded and for every band 0..max(len)+1; non-trivial = both strings "
         "non-empty and different after removing the common prefix and suffix (the DP runs), distinct = distinct pair")
 MANIFEST = dict(
     text="Lean 4 theorems about exact models of binomial_coefficient, get_index, convert_index_to_alleles, the packed "
-         "Genotype word and of edit_distance (trimming, single-row DP, band with stale cells and early exit): index/alleles "
+         "Genotype word (both constructors, with the int/uint32 wrap-around, the narrowing of the index and the guards as executed; "
+         "index -> genotype -> index and genotype -> index -> genotype through the code's two directions, word layout and injectivity, "
+         "< = documented order, behaviour at ploidy 0/15/>=16 and beyond the count) and of edit_distance (trimming, single-row DP, band with stale cells and early exit): index/alleles "
          "round trip for every ploidy and allele count, gap-free indices with count C(p+a-1,p), ==/</save-restore agree with "
          "the index, edit_distance = Levenshtein recursion for all strings, banded result exact-or-larger for every band; "
          "models tied to the working tree by differential correspondence and an independent enumeration / naive-Levenshtein oracle",
     design_ref="DESIGN.md §5 C19",
     note="trusted: Lean kernel, axioms ⊆ {propext, Classical.choice, Quot.sound}; the hand-written models (correspondence is "
-         "differential testing: exhaustive small genotype spaces and string pairs + random large ones); C int/uint32 overflow "
-         "is stated as a separate bound (peak intermediate product < 2^31 within ploidy 14 / 16 alleles) rather than modelled; "
+         "differential testing: exhaustive small genotype spaces and string pairs + random large ones); C int/uint32 arithmetic "
+         "is modelled with wrap-around and proved equal to unbounded arithmetic within the limits; where `int` overflows (undefined "
+         "behaviour, only outside the supported range) a difference between build and model is recorded, not reported; "
+         "F55 (advertised maximum ploidy 15 not constructible) is recorded as an observation, fixes/F55.patch; "
          "pickle/copy.copy of Genotype raising TypeError (F10) is recorded as an observation, not part of save/restore as stated",
     technique="Lean 4 proof (combinatorial number system, Wagner–Fischer DP invariant with band) + differential correspondence",
 )
 ASSUMPTIONS = [
     "strings are bytes or ASCII str (edit_distance takes len() before .encode(); non-ASCII str is outside the model)",
     "maxdiff is -1 (unbanded) or >= 0 and far below 2^31 (C int overflow of j+e+1 not modelled); maxdiff < -1 is not a band width and is not exercised",
-    "allele values and indices fit uint32 (Cython conversion raises OverflowError otherwise); C++ uint32/int arithmetic is modelled "
-    "by unbounded integers, justified within the supported limits (ploidy <= 14, alleles <= 16) by the proved peak bound",
-    "binomial_coefficient is compared only where the model's peak intermediate product is < 2^31 (n <= 29 covers the supported limits)",
+    "allele values fit uint32 and indices uint64 (Cython conversion raises OverflowError otherwise); ploidy of the index constructor "
+    "is exercised up to 33 (the vector it allocates has `ploidy` entries)",
+    "binomial_coefficient is compared strictly where the model's peak intermediate product is < 2^31 (n <= 29 covers the supported "
+    "limits); beyond that signed overflow is undefined behaviour: the model wraps to 32 bits like this build, a difference is an observation",
+    "the ctypes shim compiles src/genotype.cpp + src/binomial.cpp of the tree under test separately from whatshap.core (same "
+    "sources, -std=c++11 -O2); every genotype it builds within the limits is also compared with whatshap.core.Genotype",
 ]
 
 MAXP, MAXA = 14, 16
